@@ -122,6 +122,11 @@ impl Hash for St {
 
 fn fingerprint(tx: &Transaction) -> Vec<u8> {
     let mut fp = tx.to_bytes().unwrap_or_default();
+    // Everything else the object carries: the derived Debug text names every field, also ones this harness has never
+    // heard of (a further memo next to the three slots, a cached id). Two objects with equal bytes and equal slots but a
+    // different hidden field are different states: merging them would lose exactly the histories in which that field
+    // goes stale (observe, then mutate through a setter that forgets it, then observe again).
+    fp.extend_from_slice(format!("{:?}", tx).as_bytes());
     for (i, slot) in tx.verif_hash_cache().iter().enumerate() {
         fp.push(0xf0 + i as u8);
         match slot {
